@@ -3,6 +3,7 @@ mod eval;
 mod gen_pure;
 mod gen_solver;
 mod hset;
+mod misc;
 mod solver;
 mod treeck;
 mod vset;
@@ -32,6 +33,13 @@ fn main() {
                     gen_solver::gen_solver::<pubgrub::Range<u32>>(&mut sink, prop, thorough, seed, debug, n)
                 }
                 "C08" | "C09" => gen_solver::gen_trees(&mut sink, prop, thorough, seed, debug),
+                "C07" => {
+                    misc::gen_c07(&mut sink, thorough, seed);
+                    gen_solver::gen_solver::<pubgrub::Range<u32>>(&mut sink, prop, thorough, seed, debug, n / 3)
+                }
+                "C18" => misc::gen_c18(&mut sink, thorough, seed),
+                "C19" => misc::gen_c19(&mut sink, thorough, seed),
+                "C20" => misc::gen_c20(&mut sink, thorough, seed),
                 "C13" => gen_solver::gen_c13(&mut sink, thorough, seed, debug),
                 "C17" => gen_solver::gen_c17(&mut sink, thorough, seed, debug),
                 p => {
